@@ -3,3 +3,7 @@ import BB.Props.C17
 #print axioms BB.py_step_eq_iff
 #print axioms BB.step_noZero
 #print axioms BB.py_run_eq
+#print axioms BB.py_rs_run_eq_counterexample
+#print axioms BB.py_rs_run_eq_partial
+#print axioms BB.py_get_rule_eq
+#print axioms BB.py_sig_compatible_eq
